@@ -567,51 +567,64 @@ def build_function(repo, d, unit, em, report, vac=False):
             raise LostAnchor('%s: loop %d missing (shape changed)' % (oblig, k))
     body = apply_hints(body, d['hints'])
     heads = loop_heads(body)  # recompute after insertion (hints contain no loops by convention)
-    # ---- emit
-    start_line = em.lineno() + 1
-    for a in d['attrs']:
-        em.emit(a)
-    sig = d['sig'] if d['sig'] else build_sig(head, params, ret, where, d['ret'])
-    if d['mode']:
-        sig = d['mode'] + ' ' + sig
-    em.emit(sig)
-    if d['requires']:
-        em.emit('    requires')
-        for lab, e in d['requires']:
-            em.emit('        %s,' % e, '%s.requires.%s' % (oblig, lab))
-    if d['ensures'] or (vac and d['requires']):
-        em.emit('    ensures')
-        for lab, e in d['ensures']:
-            em.emit('        %s,' % e, '%s.ensures.%s' % (oblig, lab))
-        if vac and d['requires']:
-            em.emit('        false,', '%s.ensures.__vac' % oblig)
-    if d['decreases']:
-        em.emit('    decreases %s,' % d['decreases'])
-    em.emit('{')
-    # body with loop contracts spliced before each loop's `{`
-    pos = 0
-    pieces = []
-    for k, (kw, ob, cb) in enumerate(heads, 1):
-        if k in d['loops']:
-            pieces.append((body[pos:ob], None))
-            pieces.append(('LOOPSPEC', k))
-            pos = ob
-    pieces.append((body[pos:], None))
-    for text, k in pieces:
-        if text == 'LOOPSPEC':
-            lp = d['loops'][k]
-            em.emit('')
-            for kind in ('invariant_except_break', 'invariant', 'ensures'):
-                if lp[kind]:
-                    em.emit('        ' + kind)
-                    for lab, e in lp[kind]:
-                        em.emit('            %s,' % e, '%s.loop%d.%s.%s' % (oblig, k, kind, lab))
-            if lp['decreases']:
-                em.emit('        decreases %s,' % lp['decreases'])
-        else:
-            em.emit(text)
-    em.emit('}')
+    def emit_fn(vac_copy):
+        # ---- emit
+        start_line = em.lineno() + 1
+        for a in d['attrs']:
+            em.emit(a)
+        head2 = head
+        if vac_copy:
+            head2 = re.sub(r'fn\s+' + re.escape(name) + r'\b', 'fn ' + name + '__vac', head, count=1)
+        sig = d['sig'] if d['sig'] else build_sig(head2, params, ret, where, d['ret'])
+        if vac_copy and d['sig']:
+            sig = re.sub(r'fn\s+' + re.escape(name) + r'\b', 'fn ' + name + '__vac', sig, count=1)
+        if d['mode']:
+            sig = d['mode'] + ' ' + sig
+        em.emit(sig)
+        if d['requires']:
+            em.emit('    requires')
+            for lab, e in d['requires']:
+                em.emit('        %s,' % e, '%s.requires.%s' % (oblig, lab))
+        if d['ensures'] or vac_copy:
+            em.emit('    ensures')
+            for lab, e in d['ensures']:
+                em.emit('        %s,' % e, '%s.ensures.%s' % (oblig, lab))
+            if vac_copy:
+                em.emit('        false,', '%s.ensures.__vac' % oblig)
+        if d['decreases']:
+            em.emit('    decreases %s,' % d['decreases'])
+        em.emit('{')
+        # body with loop contracts spliced before each loop's `{`
+        pos = 0
+        pieces = []
+        for k, (kw, ob, cb) in enumerate(heads, 1):
+            if k in d['loops']:
+                pieces.append((body[pos:ob], None))
+                pieces.append(('LOOPSPEC', k))
+                pos = ob
+        pieces.append((body[pos:], None))
+        for text, k in pieces:
+            if text == 'LOOPSPEC':
+                lp = d['loops'][k]
+                em.emit('')
+                for kind in ('invariant_except_break', 'invariant', 'ensures'):
+                    if lp[kind]:
+                        em.emit('        ' + kind)
+                        for lab, e in lp[kind]:
+                            em.emit('            %s,' % e, '%s.loop%d.%s.%s' % (oblig, k, kind, lab))
+                if lp['decreases']:
+                    em.emit('        decreases %s,' % lp['decreases'])
+            else:
+                em.emit(text)
+        em.emit('}')
+        return start_line, sig
+
+    start_line, sig = emit_fn(False)
     em.fnranges.append((start_line, em.lineno(), oblig))
+    if vac and d['requires']:
+        # vacuity guard: a COPY of the function (callees keep their real contracts) that must fail `ensures false`
+        vstart, _ = emit_fn(True)
+        em.fnranges.append((vstart, em.lineno(), oblig + '.__vac'))
     obls = [oblig + '.body']
     obls += ['%s.ensures.%s' % (oblig, lab) for lab, _ in d['ensures']]
     for k, lp in sorted(d['loops'].items()):
